@@ -201,6 +201,24 @@ pub fn monitor(o: &Obs, events: &[&str]) -> Result<(), String> {
             }
         }
     }
+    // C01 / C08 (Sink contract): an item is only handed to a subscriber sink that has just reported readiness
+    {
+        let calls = o.line.split(" | acc=").next().unwrap_or("");
+        let mut ready: std::collections::BTreeMap<String, bool> = Default::default();
+        for seg in calls.split(" ; ") {
+            let body = seg.strip_prefix("poll:").unwrap_or("").split("->").next().unwrap_or("");
+            for tok in body.split(',') {
+                if !tok.starts_with('k') { continue; }
+                let id: String = tok[1..].chars().take_while(|c| c.is_ascii_digit()).collect();
+                let rest = &tok[1 + id.len()..];
+                if let Some(a) = rest.strip_prefix('r') { ready.insert(id, a.starts_with('R')); }
+                else if rest.starts_with('s') {
+                    if !ready.get(&id).copied().unwrap_or(false) { return Err(format!("C01/C08: an item was handed to subscriber sink k{id}, which had not reported readiness ({tok})")); }
+                    ready.insert(id, false);
+                }
+            }
+        }
+    }
     // C09: bounded work per step
     // … bounded by the data available: every scripted stream answer may cost a poll of its stream plus a
     // ready / send / flush call on each subscriber
